@@ -27,6 +27,9 @@ type C11Harness struct {
 	Setup   func() any
 	Threads []func(shared any) string
 	Pool    bool // explore pool answers too
+	// Bound (when > 0) caps the preemption bound for this harness: long bodies
+	// (more than ~500 scheduling points) are explored with fewer preemptions.
+	Bound int
 }
 
 var c11Own = []*project{
@@ -134,6 +137,30 @@ func C11Harnesses(threads int) []*C11Harness {
 			return fmt.Sprintf("used=%v|%s", u, errSnap(e))
 		},
 	}})
+	// H5: own root schemas that share one registered type object (a catalogue of types
+	// used by many request / response schemas): the type is loaded and compiled once,
+	// on behalf of whichever root reaches it first
+	h5 := &C11Harness{Name: "H5-own-roots-shared-type", Bound: 1, Setup: func() any {
+		t := jschema.New("@t", "{\n\t\"k\": 1, // {or: [{type: \"integer\"}, {type: \"string\"}]}\n\t\"m\": @u\n}")
+		u := jschema.New("@u", `"s" // {minLength: 1}`)
+		return []*jschema.JSchema{t, u}
+	}}
+	for i := 0; i < threads; i++ {
+		root := []string{"{\n\t\"x\": @t\n}", "[\n\t@t,\n\t@u\n]", "@t"}[i%3]
+		h5.Threads = append(h5.Threads, func(x any) string {
+			tt := x.([]*jschema.JSchema)
+			r := jschema.New("root", root)
+			if e := r.AddType("@t", tt[0]); e != nil {
+				return "addtype:" + errSnap(e)
+			}
+			if e := r.AddType("@u", tt[1]); e != nil {
+				return "addtype:" + errSnap(e)
+			}
+			ex, e := r.Example()
+			return "check=" + errSnap(r.Check()) + " example=" + string(ex) + "|" + errSnap(e)
+		})
+	}
+	hs = append(hs, h5)
 	// H3: shared enum rule / shared regex
 	hs = append(hs, &C11Harness{Name: "H3-shared-enum", Setup: func() any { return enum.New("e", c10Enum) }, Threads: []func(any) string{
 		func(x any) string { return "check=" + errSnap(x.(*enum.Enum).Check()) },
@@ -349,7 +376,7 @@ func init() {
 		Inst:      true,
 		MaxProcs:  1, // goroutine hand-offs are direct switches with one P
 		Technique: "stateless model checking of the real code under a cooperative scheduler: every interleaving of 2-3 goroutines at every sync operation (Mutex/RWMutex/Once/Pool, with points before and after pool operations) up to a preemption bound, combined with sync.Pool answers; plus a separate free-running pass of the same harness bodies under the Go race detector",
-		Rule:      "harnesses: H1 own objects (New+Check+Example+OpenAPI on different nested schemas, colliding in the buffer pools and the loader pool), H2 one shared schema with types (Check || Example || GetAST/Len/UsedUserTypes, and OpenAPI || UsedUserTypes), H3 shared enum rule and shared regex, H4 VirtualNodeForAny, EnsureAdditionalProperties, StringSet; preemption bound 2 (thorough 3), pool answers {most recent, older, New()} as deviations, scribbling pool; oracle: no deadlock, no panic, every thread's result equals its sequential result, a retained example is unchanged; non-trivial = executions",
+		Rule:      "harnesses: H1 own objects (New+Check+Example+OpenAPI on different nested schemas, colliding in the buffer pools and the loader pool), H2 one shared schema with types (Check || Example || GetAST/Len/UsedUserTypes, and OpenAPI || UsedUserTypes), H3 shared enum rule and shared regex, H4 VirtualNodeForAny, EnsureAdditionalProperties, StringSet, H5 own roots sharing one registered type object (first use of the type contended; one preemption); preemption bound 2, pool answers {most recent, older, New()} as deviations, scribbling pool; oracle: no deadlock, no panic, every thread's result equals its sequential result, a retained example is unchanged; non-trivial = executions",
 		Bounds: func(tier string) map[string]any {
 			return map[string]any{"threads": map[string]int{"quick": 2, "thorough": 3}[tier], "preemption_bound": map[string]int{"quick": 2, "thorough": 2}[tier], "race_pass": "16 goroutines x 150 iterations, go build -race, real sync"}
 		},
@@ -359,7 +386,11 @@ func init() {
 				threads = 3
 			}
 			for _, h := range C11Harnesses(threads) {
-				c11Explore(w, h, threads, bound, nil)
+				b := bound
+				if h.Bound > 0 && h.Bound < b {
+					b = h.Bound
+				}
+				c11Explore(w, h, threads, b, nil)
 			}
 			if w.Shard == 0 {
 				c11Race(w)
